@@ -21,6 +21,7 @@ import shutil
 import subprocess
 import tempfile
 
+from . import cfgfuncs
 from . import cfgtext as ct
 from . import core, lib
 
@@ -100,6 +101,31 @@ def systematic():
 
 
 GARBAGE = list("ab \t\"\\|~/#-") + ct.SEPARATORS + ct.SPACES + ct.ODD
+
+
+# one representative line per directive class, per argument class, per kind of inert line: the alphabet of the
+# repetition / order stream (a line's effect must not depend on which lines came before it, itself included)
+REP_LINES = ["allow git status", "deny git *", 'deny git status "no"', 'ask git "sure?"', "allow git status |", "allow-redirect /tmp/x",
+             'deny-redirect /tmp/* "no"', 'after git "done"', 'after git ""', "allow-mcp mcp__a__*", 'deny-mcp mcp__a__b "no"',
+             'after-mcp mcp__a__* "m"', "alias g git", "alias g hub", "alias ~/bin/g git", "set log /tmp/l1", "set log /tmp/l2", "set log-full",
+             "set default allow", "set default ask", "# comment", "", "   ", "bogus line", "allow", 'deny "only message"', "set default yolo",
+             "alias one", "  allow git status  ", "ALLOW git status", "allow  git   status"]
+
+
+def repetition_stream():
+    """(shape, text): every ordered pair (a, b) of representative lines as  a b | a b a | a a b | b a a b ."""
+    out = []
+    for a in REP_LINES:
+        out.append(("a a", a + "\n" + a))
+        out.append(("a a a", "\n".join([a, a, a])))
+        for b in REP_LINES:
+            if a == b:
+                continue
+            out.append(("a b", a + "\n" + b))
+            out.append(("a b a", "\n".join([a, b, a])))
+            out.append(("a a b", "\n".join([a, a, b])))
+            out.append(("b a a b", "\n".join([b, a, a, b])))
+    return out
 
 
 def rand_line(rng, pool):
@@ -501,9 +527,40 @@ def run(tier, seed, replay=None):
                 malformed = [t for t in pool if t.strip() and not t.strip().startswith("#") and loc.summary(t) != "raises" and loc.summary(t)["inert"]]
                 out.extra["malformed_pool"] = len(malformed)
                 n_rand = 2500 if tier == "quick" else 120000
-                for _ in range(n_rand):
-                    text = "\n".join(rand_line(rng, pool) for _ in range(rng.randint(1, 10)))
+                for k in range(n_rand):
+                    if k % 3 == 2:      # few distinct lines, drawn again and again: repeats and re-orderings are the rule
+                        few = [rand_line(rng, pool) for _ in range(rng.randint(1, 4))]
+                        text = "\n".join(rng.choice(few) for _ in range(rng.randint(2, 10)))
+                        out.count("random_text", "1-4 distinct lines repeated")
+                    else:
+                        text = "\n".join(rand_line(rng, pool) for _ in range(rng.randint(1, 10)))
+                        out.count("random_text", "independent lines")
                     check_text(out, model, home, parse_config, loc, text, rng, xcheck, metamorphic=True, malformed=malformed)
+                # repetition / order: a line's effect does not depend on the lines before it, itself included
+                reps = repetition_stream()
+                if tier == "quick":
+                    reps = reps[::2] if len(reps) > 2500 else reps
+                for shape, text in reps:
+                    out.count("repetition", shape)
+                    check_text(out, model, home, parse_config, loc, text, rng, xcheck)
+                # function-level ties (harness/cfgfuncs.py): every helper of the parser against its Gallina counterpart on all
+                # short token sequences over the helper's own alphabet; each differing input is then put where the
+                # property can see it (a config line / a rule value) for the locality and round-trip oracles
+                from dippy.core import config as cfgmod
+                diffs = cfgfuncs.run_ties(out, model, cfgmod, home, tier, rng)
+                embed = {"unescape": ['ask x "{}"', 'deny-mcp m "{}"'], "extract": ["ask {}", "after-mcp {}"], "anchor": ["allow {}", "deny {}"],
+                         "classify": ["allow {}", "alias {} t"], "tildes": ["allow-redirect {}", "alias {} t"], "setting": ["set {}"],
+                         "line": ["{}"]}
+                for name, inputs in diffs.items():
+                    for sx in inputs[:40]:
+                        for tpl in embed[name]:
+                            check_text(out, model, home, parse_config, loc, tpl.format(sx) + "\nallow after", rng, xcheck, metamorphic=True,
+                                       malformed=malformed)
+                        if name in ("unescape", "extract") and "\n" not in sx:
+                            check_value(out, model, home, parse_config, ("ask", "x", False, sx), xcheck)
+                            check_value(out, model, home, parse_config, ("deny", sx.strip() or "x", False, "m"), xcheck)
+                        if name == "anchor" and sx.strip() and "\n" not in sx:
+                            check_value(out, model, home, parse_config, ("allow", sx.strip(), True, None), xcheck)
                 # expanduser raises only what the model enumerates
                 for v in ["~nosuchuser/x", "~\x00", "~\ud800/x", "~\udc80", "~", "~/x", "a\x00b", "", "~root", "~root/x", "\ud800"]:
                     try:
@@ -550,9 +607,16 @@ def run(tier, seed, replay=None):
         "shape (no arg, pattern, pattern+message, | anchor, message only, unterminated/escaped final quote, backslash runs 0-4, tabs, "
         "every str.splitlines separator, CR, NUL, lone surrogates, RTL, combining, all `set`/`alias` forms) with and without outer "
         "white space; random: texts of 1-10 lines drawn from that pool and from random character soup, each with one inert-line "
-        "deletion and one malformed-line insertion; rule values: 11 directives x 26 patterns x |? x 33 messages (sampled in quick) "
+        "deletion and one malformed-line insertion (every third text draws its lines from only 1-4 distinct lines, so repeats and "
+        "re-orderings are the rule); repetition/order: every ordered pair (a, b) of 31 representative lines (one per directive and "
+        "argument class, settings, aliases redefined, inert lines, spelling variants) as a b / a b a / a a b / b a a b / a a / a a a, "
+        "judged by the fold-of-lines oracle; rule values: 11 directives x 26 patterns x |? x 33 messages (sampled in quick) "
         "plus random values, written by the reference writer and parsed back, singly and as files of 1-8 rules; hook: "
         "user/project/env layer each in {ok, absent, dir, dangling, loop, undecodable, mode 000 (run as nobody), EIO, "
-        "unsearchable parent, ~nosuchuser, empty} through bin/dippy-hook. distinct = distinct texts / values / layouts; "
+        "unsearchable parent, ~nosuchuser, empty} through bin/dippy-hook; function-level ties (harness/cfgfuncs.py): _unescape, "
+        "_extract_message, _strip_exact_anchor, _classify_token, _expand_pattern_tildes, _apply_setting and the one-line step of "
+        "parse_config against the Gallina functions on ALL sequences of up to 3-6 tokens over each helper's own alphabet (literals "
+        "it tests, near misses, a neutral token) plus random longer ones; differing inputs are embedded in config lines and rule "
+        "values for the locality / round-trip oracles. distinct = distinct texts / values / layouts; "
         "non-trivial = a text with a non-blank line, a value accepted by a well-formedness predicate, a layout with a broken layer")
     return out
